@@ -395,6 +395,10 @@ func exploreSeed(r *ev.Run, seedOff int, tot *statefulTotals) {
 				results := make([]int, d)
 				var nseq int64
 				for !stop.Load() {
+					if r.Violations() > 200 {
+						stop.Store(true)
+						break
+					}
 					lo := next.Add(chunk) - chunk
 					if lo >= total {
 						break
